@@ -185,6 +185,7 @@ class FSMInfo:
     def __init__(self, fid, name, reset_state, node, pyguards, wrappers):
         self.id, self.name, self.reset_state, self.node = fid, name, reset_state, node
         self.pyguards, self.wrappers = pyguards, wrappers
+        self.alias = None       # attribute the FSM object is finally bound to (self.wr_fsm)
         self.states = {}        # state name -> [(pyguards, node)]
         self.first_state = None
 
@@ -851,6 +852,8 @@ class FX:
         return False
 
     def _store(self, t, val, env, st, value_node=None):
+        if isinstance(val, FSMRef) and val.fid in self.fsms and isinstance(t, ast.Attribute):
+            self.fsms[val.fid].alias = norm(t).replace("self.submodules.", "self.")
         if isinstance(t, ast.Name):
             env[t.id] = val
         elif isinstance(t, ast.Attribute):
